@@ -416,7 +416,9 @@ def run_continuation(ctx, rng, n):
     length reader accepts inside a length are interchangeable and equal to no blank at all"""
     heads = ["c", "d+", "r", "n60,", "a-", "l"]
     parts = ["1", "2", "4", "8", "4.", "%24", "16", ""]
-    blanks = [" ", "\t", "|", " | ", "\n", " \n ", "|\n", "  ", "\t|\t", "| |", "\n\n"]
+    blanks = [" ", "\t", "|", " | ", "\n", " \n ", "|\n", "  ", "\t|\t", "| |", "\n\n",
+              # comments on lines of their own between the note and the continuation (then indentation, blank lines, more comments)
+              "\n// x\n", "\n// x\n  ", "\n// a\n// b\n", "\n// x\n\n", "\n/* x */\n", "\n  /* x */ // y\n\t"]
     cases = []
     for h in heads:
         for b in blanks:
